@@ -21,7 +21,7 @@ func XMultiSameMethod() *spec.Spec {
 
 // Extended returns the extended families (everything beyond the documented core combinations).
 func Extended(thorough bool) []*spec.Spec {
-	out := []*spec.Spec{XMultiSameMethod(), XCrossFile(), XTwoServiceFiles(), XTimestampCards(), XTimestampCardsFmt(), XEmptyOrders(), XOneofSiblings(), XSharedMethodHeader(), XQuotedHeaderTexts(), XQuotedAnnotationValues(), XForeignResponse(), XSameNamedNestedEnums(), XOneofVariantShapes(), XInt64Cards(), XHeaderNameShapes(), XParamNameClashes(), XHeaderOverrideShapes(), XUnwrapWrapperShapes(), XProto2Basic(), XSharedTypesAcrossServiceFiles(), XHeaderTypeFormat(), XNestedAnnotated(), XHeaderSpellingTypes(), XUnwrapCycles(), XTwoGoPackages(), XJSONNames()}
+	out := []*spec.Spec{XMultiSameMethod(), XCrossFile(), XTwoServiceFiles(), XTimestampCards(), XTimestampCardsFmt(), XEmptyOrders(), XOneofSiblings(), XSharedMethodHeader(), XQuotedHeaderTexts(), XQuotedAnnotationValues(), XForeignResponse(), XSameNamedNestedEnums(), XOneofVariantShapes(), XInt64Cards(), XHeaderNameShapes(), XParamNameClashes(), XHeaderOverrideShapes(), XUnwrapWrapperShapes(), XProto2Basic(), XSharedTypesAcrossServiceFiles(), XHeaderTypeFormat(), XNestedAnnotated(), XHeaderSpellingTypes(), XUnwrapCycles(), XTwoGoPackages(false), XTwoGoPackages(true), XJSONNames()}
 	out = append(out, XWellKnownPositions()...)
 	out = append(out, XAnnotationCards()...)
 	out = append(out, XIdentifierShapes()...)
@@ -375,16 +375,23 @@ func XWellKnownPositions() []*spec.Spec {
 // package: root map / root list unwrap of foreign messages, root map of foreign list wrappers, a map of foreign wrappers beside
 // siblings, a flattened foreign child, foreign variants of a flattened and of a nested discriminated oneof. Generation-level unit
 // (C13 compiles both packages for every plugin subset, C14 compares the two Go plugins' files).
-func XTwoGoPackages() *spec.Spec {
-	common := &spec.File{Path: "x_twopkg_common.proto", Package: "vx_twopkg.common", GoPackage: "verifws/u/x_twopkg/common;common",
+//
+// perPackage: the same definition generated the way protoc / buf do it for a module with several packages - one plugin invocation
+// per package, the other package's file present only as a dependency of the request.
+func XTwoGoPackages(perPackage bool) *spec.Spec {
+	name, cell := "x_twopkg", "ext/unit=two_go_packages"
+	if perPackage {
+		name, cell = "x_twopkg_each", "ext/unit=two_go_packages_invoked_per_package"
+	}
+	common := &spec.File{Path: name + "_common.proto", Package: "v" + name + ".common", GoPackage: "verifws/u/" + name + "/common;common",
 		Messages: []*spec.Message{
 			spec.M("Quote", spec.F("symbol", "string"), spec.F("volume", "int64")),
 			spec.M("Bars", spec.Msg("bars", "Quote").Rep().Unw()),
 			spec.M("Geo", spec.F("lat", "double"), spec.F("lng", "double")),
 			spec.M("Note", spec.F("text", "string")),
 		}}
-	c := ".vx_twopkg.common."
-	api := &spec.File{Path: "x_twopkg.proto", Package: "vx_twopkg", Imports: []string{common.Path},
+	c := ".v" + name + ".common."
+	api := &spec.File{Path: name + ".proto", Package: "v" + name, Imports: []string{common.Path},
 		Messages: []*spec.Message{
 			spec.M("Req", spec.F("id", "string")),
 			spec.M("QuoteBook", spec.Msg("quotes", c+"Quote").Map().Unw()),
@@ -400,8 +407,8 @@ func XTwoGoPackages() *spec.Spec {
 			spec.RPC("GetHolder", "Req", "Holder", "POST", "/holder"), spec.RPC("EchoPlace", "Place", "Place", "POST", "/place"),
 			spec.RPC("EchoFlat", "FlatShape", "FlatShape", "POST", "/flat"), spec.RPC("EchoNested", "NestedShape", "NestedShape", "POST", "/nested"),
 			spec.RPC("GetQuote", "Req", c+"Quote", "POST", "/quote"))}}
-	s2 := &spec.Spec{Name: "x_twopkg", Files: []*spec.File{common, api}}
-	return withCell(s2, "ext/unit=two_go_packages", "extended", "valid", "codec", "multifile")
+	s2 := &spec.Spec{Name: name, Files: []*spec.File{common, api}, PerPackage: perPackage}
+	return withCell(s2, cell, "extended", "valid", "codec", "multifile")
 }
 
 // XJSONNames: explicit json_name options - on plain fields of every cardinality, on path and query fields, on the members of a
